@@ -5,6 +5,28 @@ pub use pavex_macros_shim::{config, methods, post_process, pre_process, request_
 pub struct Response;
 impl Response { pub fn internal_server_error() -> Self { Response } }
 pub mod time {
+    /// Verification shim for `jiff::Timestamp`: whole seconds on a symbolic clock. `now()` returns
+    /// the instant the harness last set with `verif_set_now` (time is a harness-controlled
+    /// variable: it stands still during one store operation and advances arbitrarily between two).
+    #[derive(Clone, Copy, Debug, PartialEq, Eq, PartialOrd, Ord)]
+    pub struct Timestamp(pub i64);
+    static mut NOW: i64 = 0;
+    pub fn verif_set_now(t: i64) { unsafe { NOW = t } }
+    impl Timestamp {
+        pub fn now() -> Timestamp { Timestamp(unsafe { NOW }) }
+    }
+    impl std::ops::Add<std::time::Duration> for Timestamp {
+        type Output = Timestamp;
+        fn add(self, d: std::time::Duration) -> Timestamp { Timestamp(self.0 + d.as_secs() as i64) }
+    }
+    impl std::ops::Sub<Timestamp> for Timestamp {
+        type Output = SignedDuration;
+        fn sub(self, o: Timestamp) -> SignedDuration { SignedDuration(self.0 - o.0) }
+    }
+    impl TryFrom<SignedDuration> for std::time::Duration {
+        type Error = ();
+        fn try_from(d: SignedDuration) -> Result<Self, ()> { if d.0 < 0 { Err(()) } else { Ok(std::time::Duration::from_secs(d.0 as u64)) } }
+    }
     #[derive(Clone, Copy, Debug, PartialEq, Eq, PartialOrd, Ord)]
     pub struct SignedDuration(pub i64);
     impl SignedDuration { pub const MAX: SignedDuration = SignedDuration(i64::MAX); }
